@@ -291,7 +291,16 @@ def gen_conc() -> str:
     if len(clear) != 1:
         _fail(H, f, "the plan commit no longer clears _plan_pending")
     fired = [n for n in body[idx["sibs"] + 1: idx["plan_stage"]] if isinstance(n, ast.If) and "stage.context['_join_fired'] = True" in _u(n)]
-    fired_joins = sorted(_u(n.test).replace("stage.join_type == JoinType.", "") for n in fired)
+    fired_joins = []
+    for n in fired:
+        # `stage.join_type == JoinType.X` (one `if` per join type) or one `if stage.join_type in (JoinType.X, JoinType.Y)`
+        t = n.test
+        if isinstance(t, ast.Compare) and len(t.ops) == 1 and _u(t.left) == "stage.join_type" and isinstance(t.ops[0], ast.In) \
+                and isinstance(t.comparators[0], (ast.Tuple, ast.Set, ast.List)):
+            fired_joins += [_u(e).replace("JoinType.", "") for e in t.comparators[0].elts]
+        else:
+            fired_joins.append(_u(t).replace("stage.join_type == JoinType.", ""))
+    fired_joins = sorted(fired_joins)
     if fired_joins != ["DISCRIMINATOR", "N_OF_M"]:
         _fail(H, f, f"_join_fired is set for {fired_joins}, expected DISCRIMINATOR and N_OF_M after the claim")
 
